@@ -258,7 +258,7 @@ def linecount_rule(run, fi, tables, rule=None):
                 run.violated(key, 'for N = %d values the expression gives %d lines, but %d values fit %d per line in %d lines: '
                              'a record too many is %s (the reader/writer pair goes out of step on exact multiples of %d)'
                              % (bad[0], bad[1], bad[0], K, bad[2], 'written' if recs[0].func.attr == 'write_values' else 'read', K),
-                             where=fi.where(lp), rule=rule)
+                             where=fi.where(lp), rule=rule, robust=True)     # the expression is evaluated, no local is matched by name
         else:
             run.ok(key, 'equals ceil(N/%d) for N = 0..%d' % (K, 4 * K + 1), where=fi.where(lp), rule=rule)
     return found
